@@ -677,7 +677,7 @@ pub fn replay(v: &Value) -> i32 {
         }
     }
     let hist = History::from_json(&v["history"]);
-    let all = Oracles { rets: true, dump_after: true, reopen_copy: true, probe_each_op: Some(real::ProbeCfg::LIGHT), probe_after_commit: Some(real::ProbeCfg::LIGHT), fileck: true, dbcheck: true, no_trace: true, readers_frozen: true, strict_layout: true, both_headers: true, dump_in_tx: true, kept_cursor: true };
+    let all = Oracles { rets: true, dump_after: true, reopen_copy: true, probe_each_op: Some(real::ProbeCfg::LIGHT), probe_after_commit: Some(real::ProbeCfg::LIGHT), fileck: true, dbcheck: true, no_trace: true, readers_frozen: true, strict_layout: true, both_headers: true, dump_in_tx: true, probe_in_tx_end: None, kept_cursor: true };
     println!("step-by-step replay with every oracle on:");
     match Runner::new(&path, hist.cfg.clone()) {
         Ok(mut r) => {
